@@ -214,7 +214,7 @@ def _branch_and_price(
     total_cg_iters = 0
 
     # Solve root node LP via column generation
-    x_vals, lp_obj, cg_iters = _solve_node_lp(
+    x_vals, lp_obj, cg_iters, converged = _solve_node_lp(
         columns, column_set, demands, {}, pricing_fn, is_cutting_stock, max_iter, eps
     )
     total_cg_iters += cg_iters
@@ -222,11 +222,17 @@ def _branch_and_price(
     if lp_obj == float("inf"):
         return Result(None, float("inf"), 0, total_cg_iters, Status.INFEASIBLE)
 
+    # The root LP value is the only bound that is valid for the whole problem: pricing does not
+    # see the branching bounds, so node LP values below the root are not lower bounds.
+    root_lb = ceil(lp_obj - eps) if converged else 0
+
     # Check if root LP is already integer
     frac_idx, frac_val = _most_fractional(x_vals, eps)
     if frac_idx is None:
         solution = _build_solution(x_vals, columns, eps)
-        return Result(solution, lp_obj, 0, total_cg_iters, Status.OPTIMAL)
+        total = float(sum(solution.values()))
+        status = Status.OPTIMAL if total <= root_lb else Status.FEASIBLE
+        return Result(solution, total, 0, total_cg_iters, status)
 
     # Initialize B&B
     best_solution: dict[tuple[int, ...], int] | None = None
@@ -254,7 +260,7 @@ def _branch_and_price(
         col_bounds = {idx: (lo, hi) for idx, lo, hi in node.column_bounds}
 
         # Solve node LP with column generation
-        x_vals, lp_obj, cg_iters = _solve_node_lp(
+        x_vals, lp_obj, cg_iters, _ = _solve_node_lp(
             columns, column_set, demands, col_bounds, pricing_fn, is_cutting_stock, max_iter, eps
         )
         total_cg_iters += cg_iters
@@ -278,8 +284,8 @@ def _branch_and_price(
                 best_solution = candidate
                 best_obj = obj
 
-                # Check gap
-                gap = (best_obj - lp_obj) / max(abs(best_obj), 1e-10)
+                # Check gap against the only valid bound
+                gap = (best_obj - root_lb) / max(abs(best_obj), 1e-10)
                 if gap < gap_tol:
                     return Result(best_solution, best_obj, nodes_explored, total_cg_iters, Status.OPTIMAL)
             continue
@@ -302,19 +308,20 @@ def _branch_and_price(
     if best_solution is None:
         return Result(None, float("inf"), nodes_explored, total_cg_iters, Status.INFEASIBLE)
 
-    status = Status.OPTIMAL if not tree else Status.FEASIBLE
+    status = Status.OPTIMAL if best_obj <= root_lb + eps else Status.FEASIBLE
     return Result(best_solution, best_obj, nodes_explored, total_cg_iters, status)
 
 
 def _solve_node_lp(columns, column_set, demands, col_bounds, pricing_fn, is_cutting_stock, max_iter, eps):
     """Solve LP relaxation at a B&B node via column generation."""
     cg_iters = 0
+    converged = False
 
     for _ in range(max_iter):
         x_vals, duals, lp_obj = _solve_bounded_master_lp(columns, demands, col_bounds, eps)
 
         if lp_obj == float("inf"):
-            return x_vals, lp_obj, cg_iters
+            return x_vals, lp_obj, cg_iters, False
 
         # Pricing
         new_col, pricing_value = pricing_fn(duals)
@@ -322,20 +329,26 @@ def _solve_node_lp(columns, column_set, demands, col_bounds, pricing_fn, is_cutt
         # Check reduced cost
         if is_cutting_stock:
             if pricing_value <= 1.0 + eps:
+                converged = True
                 break
         else:
             if new_col is None or pricing_value >= -eps:
+                converged = True
                 break
 
-        if new_col is not None and new_col not in column_set:
-            columns.append(new_col)
-            column_set.add(new_col)
+        if new_col is None or new_col in column_set:
+            # Pricing keeps proposing a column that is already there (it cannot see the
+            # branching bounds): nothing will change any more.
+            break
+
+        columns.append(new_col)
+        column_set.add(new_col)
 
         cg_iters += 1
 
     # Final solve
     x_vals, duals, lp_obj = _solve_bounded_master_lp(columns, demands, col_bounds, eps)
-    return x_vals, lp_obj, cg_iters
+    return x_vals, lp_obj, cg_iters, converged
 
 
 def _solve_bounded_master_lp(columns, demands, col_bounds, eps):
